@@ -24,6 +24,7 @@ type PinCase struct {
 	False     bool      `json:"false,omitempty"`     // the clause is the literal `false`
 	AndWord   bool      `json:"and_word,omitempty"`  // use `and` instead of `&`
 	Fields    string    `json:"fields,omitempty"`
+	Delete    bool      `json:"delete,omitempty"` // the clause belongs to a DELETE statement
 }
 
 func (a *PinAtom) Render() string {
@@ -73,6 +74,9 @@ func (p *PinCase) Where() string {
 }
 
 func (p *PinCase) Text() string {
+	if p.Delete {
+		return "delete where " + p.Where()
+	}
 	f := p.Fields
 	if f == "" {
 		f = "*"
@@ -313,6 +317,9 @@ func genC18(seed uint64, i int, tier string) *Scenario {
 			pc.Atoms = []PinAtom{mkAtom()}
 			if r.Chance(0.45) {
 				pc.Atoms = append(pc.Atoms, mkAtom())
+				if r.Chance(0.25) {
+					pc.Atoms = append(pc.Atoms, mkAtom())
+				}
 			}
 		}
 	}
@@ -327,6 +334,7 @@ func genC18(seed uint64, i int, tier string) *Scenario {
 		pc.AndWord = r.Chance(0.3)
 	}
 	pc.Fields = pick(r, []string{"*", "key", "key, value", "key, int(value) as n"})
+	pc.Delete = r.Chance(0.15)
 	mode := genMode(r)
 	sc := &Scenario{Cfg: Config{Batch: pickBatch(r), Cache: r.Bool(), Alias: r.Chance(0.3), Lazy: r.Chance(0.3)}, Init: c18Store(r), K: &pc}
 	stmts := []Stmt{}
@@ -366,23 +374,26 @@ func pinVerdict(pc *PinCase, evs []Event, complete bool) (kind, detail string) {
 		return false
 	}
 	unsat := pc.False
-	if len(pc.Atoms) == 2 {
-		a, b := &pc.Atoms[0], &pc.Atoms[1]
-		switch {
-		case a.isPoint() && b.isPoint():
-			unsat = true
-			for _, l := range a.Lits {
-				if b.contains(l) {
-					unsat = false
+	for i := 0; i < len(pc.Atoms) && !unsat; i++ {
+		for j := i + 1; j < len(pc.Atoms) && !unsat; j++ {
+			a, b := &pc.Atoms[i], &pc.Atoms[j]
+			switch {
+			case a.isPoint() && b.isPoint():
+				common := false
+				for _, l := range a.Lits {
+					if b.contains(l) {
+						common = true
+					}
 				}
+				unsat = !common
+			case a.Shape == "prefix" && b.Shape == "prefix":
+				unsat = !strings.HasPrefix(a.Lits[0], b.Lits[0]) && !strings.HasPrefix(b.Lits[0], a.Lits[0])
+			case isRangeShape(a.Shape) && isRangeShape(b.Shape):
+				lo1, hi1 := rangeBounds(a)
+				lo2, hi2 := rangeBounds(b)
+				// disjoint on the face: one's closed upper bound is strictly below the other's closed lower bound
+				unsat = (hi1 != nil && lo2 != nil && *hi1 < *lo2) || (hi2 != nil && lo1 != nil && *hi2 < *lo1)
 			}
-		case a.Shape == "prefix" && b.Shape == "prefix":
-			unsat = !strings.HasPrefix(a.Lits[0], b.Lits[0]) && !strings.HasPrefix(b.Lits[0], a.Lits[0])
-		case isRangeShape(a.Shape) && isRangeShape(b.Shape):
-			lo1, hi1 := rangeBounds(a)
-			lo2, hi2 := rangeBounds(b)
-			// disjoint on the face: one's closed upper bound is strictly below the other's closed lower bound
-			unsat = (hi1 != nil && lo2 != nil && *hi1 < *lo2) || (hi2 != nil && lo1 != nil && *hi2 < *lo1)
 		}
 	}
 	nGet, nNext := 0, 0
@@ -414,45 +425,56 @@ func pinVerdict(pc *PinCase, evs []Event, complete bool) (kind, detail string) {
 			minStart = &ss
 		}
 	}
-	// point-read obligation
-	pointIdx := -1
-	for i := range pc.Atoms {
-		if pc.Atoms[i].isPoint() {
-			pointIdx = i
-		}
-	}
+	// point-read obligation: a point atom (= / IN) alone, with opaque
+	// conjuncts, with other point atoms, or with prefix/range conjuncts that
+	// contain all of its keys must be answered by point reads of the keys that
+	// survive every pinning conjunct.
 	mustPoint := false
 	var surviving []string
-	if pointIdx >= 0 {
+	for pi := range pc.Atoms {
+		if !pc.Atoms[pi].isPoint() {
+			continue
+		}
 		mustPoint = true
-		for _, l := range pc.Atoms[pointIdx].Lits {
+		surviving = nil
+		for _, l := range pc.Atoms[pi].Lits {
 			ok := true
 			for j := range pc.Atoms {
-				if j != pointIdx && !pc.Atoms[j].satisfies(l) {
+				if j == pi {
+					continue
+				}
+				if !pc.Atoms[j].satisfies(l) {
 					ok = false
+					if !pc.Atoms[j].isPoint() {
+						// a region conjunct that does not contain all keys: no obligation under the adopted reading
+						mustPoint = false
+					}
 				}
 			}
 			if ok {
 				surviving = append(surviving, l)
-			} else if !pc.Atoms[1-pointIdx].isPoint() {
-				// the other conjunct does not contain all keys: the design's reading does not oblige point reads here
-				mustPoint = false
 			}
 		}
-		if len(pc.Atoms) == 2 && pc.Atoms[0].isPoint() && pc.Atoms[1].isPoint() {
-			mustPoint = true
-			surviving = nil
-			for _, l := range pc.Atoms[0].Lits {
-				if pc.Atoms[1].contains(l) {
-					surviving = append(surviving, l)
-				}
-			}
-		}
+		break
+	}
+	if pc.Delete {
+		// a DELETE by literal key set may remove the keys without reading them
+		surviving = nil
 	}
 	gets := map[string]bool{}
 	outsideInPoll := map[int]int{}
 	lastNextInPoll := map[int]int{}
-	for i, e := range evs {
+	// An end detection is delimited by the caller's polls and, inside a DELETE
+	// (which drains its child in a loop within one poll), by its write calls.
+	seg := 0
+	segOf := func(e *Event) int { return e.Poll*1000 + seg }
+	for i := range evs {
+		e := evs[i]
+		if isMutating(e.Op) {
+			seg++
+			continue
+		}
+		e.Poll = segOf(&e)
 		switch e.Op {
 		case OpGet:
 			gets[e.Key] = true
